@@ -9,7 +9,21 @@ a flag / helper / `!=` test the linear engine cannot read, a queue fed through a
 in an unknown form - is `Undecidable` (exit 2).  Locals are never identified by name: the sequence-length table is the
 container filled with distance(begin_seqs[k].first, begin_seqs[k].second), the border arrays are the ones the edge scans
 read, the skew is the local defined from the rank parameter whose sign tests dominate the queues, begin_seqs and rank
-are the first and third parameter of the public signature."""
+are the first and third parameter of the public signature.
+
+A maximum scan whose winner is kept together with its sequence index and then compared lexicographically by (key, sequence
+index) - the partition's (lmax, lmax_seq) - must keep the lexicographic maximum: among equal keys the highest sequence
+index.  The visiting order is read from the scan loop (one variable stepped once per iteration by a constant of one sign),
+the behaviour on equal keys from the tie rows of the scan's decision table; scans whose winner's sequence is not used
+(selection, the final edge scans) stay free on ties.
+
+Before the rules run, two exact rewrites bring other spellings back to the shape the rules read (on a copy of the function
+with a CFG from engine/cfgbuild.py; whatever cannot be rewritten exactly stays as it is and is then `cannot decide` where it
+matters): calls of local lambdas that are only ever called are replaced by their bodies (inline_local_lambdas), and a local of
+a plain aggregate type used field by field / assigned from braced lists is split into one local per field
+(scalarize_structs).  A std::vector kept in heap order exactly the way std::priority_queue is specified (push_back +
+push_heap, pop_heap + pop_back, front) is read as a priority queue with the comparator of the heap calls; a bound carried by a
+sticky bool flag (`if (f && !(bound)) f = false; ... if (f) use`) is read by a pair of must-facts (flag_established)."""
 import copy
 import itertools
 
@@ -197,7 +211,9 @@ class _LambdaInliner(normalize.Rewriter):
         if tgt is None:
             return set()
         root = normalize.lvalue_root(tgt)
-        return {root if root is not None else "?"}
+        t0 = strip_casts(tgt)
+        through_ptr = match.deref_of(t0) is not None or (t0 is not None and t0["k"] == "MemberExpr" and t0.get("arrow"))
+        return {root if root is not None else "?"} | ({"?"} if through_ptr else set())
 
     def info(self, cal):
         """(declaration ids written in the body, body is free of effects, usable) of a lambda"""
@@ -381,8 +397,11 @@ def inline_local_lambdas(fn):
                     y, p_ = p_, parent.get(p_["id"])
                 if not (p_ is not None and p_["k"] == "CXXOperatorCallExpr" and p_.get("op") == "()" and kids(p_)[0] is y):
                     ok = False          # the closure is handed on: it may be called from anywhere
+        lam_writes = set()
+        for y in ir.walk(cal.body):
+            lam_writes |= _LambdaInliner._targets(y)
         for c_ in lam.get("captures", []):
-            if not c_.get("byref") and (c_.get("id") is None or c_["id"] in writes or "?" in writes):
+            if not c_.get("byref") and (c_.get("id") is None or c_["id"] in writes or "?" in writes or c_["id"] in lam_writes):
                 ok = False
         if ok:
             usable[d] = cal
@@ -1395,8 +1414,8 @@ def visit_order(cx, sc):
                     step = 1 if fr[1] > 0 else -1
         if step is None:
             raise dtable.Undecidable("%s: the step `%s` of the scan loop for %s is not a constant increment / decrement" % (fn.loc, dtable.describe(w)[:40], name))
-        # executed exactly once per iteration: the increment of a for loop, or a statement of the loop body itself in a
-        # loop without `continue`
+        # executed exactly once per iteration: the increment of a for loop, an unconditional part of the loop condition, or
+        # a statement of the loop body itself in a loop without `continue`
         top = w
         par = fn.parent(top)
         while par is not None and (par["k"] in _CASTS or (par["k"] == "BinaryOperator" and par.get("op") == ",")):
@@ -1404,7 +1423,8 @@ def visit_order(cx, sc):
         in_inc = inc is not None and any(y is w for y in ir.walk(inc)) and (top is inc or par is loop)
         in_body = par is body and body is not None and body["k"] == "CompoundStmt" and \
             not any(y["k"] in ("ContinueStmt", "GotoStmt") for y in ir.walk(body))
-        if not (in_inc or in_body):
+        in_cond = cond is not None and any(y is w for y in unconditional(cond))
+        if not (in_inc or in_body or in_cond):
             raise dtable.Undecidable("%s: cannot tell that `%s` runs once per iteration of the scan loop for %s" % (fn.loc, dtable.describe(w)[:40], name))
         dirs.add((1 if k > 0 else -1) * step)
     if len(dirs) != 1:
@@ -1497,7 +1517,8 @@ def check_edge_scans(ck, cx, tag):
     ck.require(len(scans) >= 3, "%s: edge scans not found" % fn.loc)
     if not nbad:
         ck.ok("EDGE-TIEBREAK", tag, "%d edge scans keep the maximum of the left edge / minimum of the right edge, decided on the "
-              "truth table of each scan body (first candidate taken, replaced iff strictly better in the kept direction, ties free)" % len(scans))
+              "truth table of each scan body (first candidate taken, replaced iff strictly better in the kept direction; ties are free here and "
+              "decided separately for a winner that is kept with its sequence index)" % len(scans))
 
 
 def border_arrays(cx):
@@ -2263,7 +2284,8 @@ def run(ck):
     ck.explanation = (
         "The numeric refinement (halving, skew correction, returned ranks) is not decidable statically. Decided necessary conditions: the two "
         "tie-break comparators are the strict lexicographic (value, sequence index) order and its reverse (decision tables); the skew-correction "
-        "queues have the right orientation and source; the edge scans keep maximum / minimum; the partition's refinement decision compares "
+        "queues have the right orientation and source; the edge scans keep maximum / minimum, and the scan whose winner is compared as a (value, sequence index) pair keeps the highest sequence among "
+        "equal keys (found by two seeded changes: `!comp(x, max)` rewritten as `comp(max, x)`); the partition's refinement decision compares "
         "(element, sequence) pairs (found and fixed: it compared keys only, so runs of equal elements were split against the sequence order); every "
         "element access is reached only over branch edges that establish index < seqlen (or index - 1 with index > 0), one of them being exactly "
         "that bound, so no existing candidate is skipped; a left border that is still zero moves by K exactly when K <= seqlen; every standard ordering algorithm called inside receives the caller's comparator (COMP-THREADED); locals whose "
